@@ -146,7 +146,7 @@ def run_case(case, seed):
             fails.append(fail("finite", f"seed {sd}", **t2))
             continue
         tolu = 1e-9
-        if case.get("vals"):
+        if True:
             nzv_ = sorted({v for v in vals if v > 0}, reverse=True)
             gap_rel_ = min(((a - b) / nzv_[0] for a, b in zip(nzv_, nzv_[1:])), default=1.0)
             if gap_rel_ < 2.0 ** -12:  # close singular values: accuracy ~ u sigma_1 / gap (see C05); gross errors are still decided
